@@ -11,7 +11,9 @@ FINISH = dict(rule="R1 YarlThreads.tla: all interleavings of 2 (thorough: 3) thr
                    "negative configurations QuoterMayYield and ProvisionalPublish must each yield a counterexample; R3 (a) "
                    "free-running stress: 8 OS threads, switch interval 1e-6, shared pool, quoted outputs above and below 8 KiB "
                    "tagged per thread, concurrent cache_clear/cache_configure; (b) deterministic settrace baton schedules with "
-                   "0-3 pre-emptions at line granularity over two-thread programs; each round first runs sequentially; "
+                   "0-3 pre-emptions at line granularity over two-thread programs; (c) SYSTEMATIC: for two-thread programs (derive from a shared "
+                   "object x first read of its accessors, both orders; derive x derive; ctor x ctor) EVERY schedule with exactly one "
+                   "pre-emption of thread 0 (at each of its yield points); each round first runs sequentially; "
                    "TraceMem.tla requires every concurrent fact to equal the sequential one and no exception in any thread; both "
                    "back ends")
 
@@ -46,13 +48,16 @@ def run(out, sc, tier, seed):
         d = sc.work / f"thr-{be}-{mode}-{k}"
         d.mkdir()
         r = subprocess.run([PY, "-X", "utf8", "-m", "vlib.threadrun", str(d), str(seed * 100 + k), mode, str(n)],
-                           env=sc.env(be), cwd=str(sc.work), capture_output=True, text=True, timeout=3600)
+                           env=sc.env(be, {"VERIF_SYS_STRIDE": "3" if tier == "quick" else "1"}), cwd=str(sc.work),
+                           capture_output=True, text=True, timeout=3600)
         if r.returncode != 0:
             raise MachineryFailure(f"threadrun failed rc={r.returncode}: {r.stderr[-2000:]}")
         return sorted(d.glob("thr-*.json"))
+    npairs = 1000
     jobs = [(be, "stress", k, nstress) for be in ("c", "py") for k in range(3)] + \
-           [(be, "sched", k, nsched) for be in ("c", "py") for k in range(4)]
-    with cf.ThreadPoolExecutor(max_workers=7) as ex:
+           [(be, "sched", k, nsched) for be in ("c", "py") for k in range(4)] + \
+           [(be, "sys1", k, npairs) for be in ("c", "py") for k in range(4)]
+    with cf.ThreadPoolExecutor(max_workers=11) as ex:
         for paths in ex.map(one, jobs):
             shards += paths
     results = validate_shards("TraceMem", trace_cfg("C20"), shards, sc.work, heap="3g")
